@@ -325,6 +325,15 @@ def run_file(spec, res, d, h, f, ioapi):
         if any(vs.shape[ax] >= 2 for ax, d in mine):
             nontrivial = True
         vdt = np.dtype(vs.dtype)
+        if vdt.kind in 'iu' and vs.mask is not None and vs.mask.any() and \
+                any(fnmap[d] in ops.CALLABLES or fnmap[d] in _EXTRA
+                    for ax, d in mine):
+            # numpy's 1-D functions (convolve, diff, cumsum ...) compute with
+            # whatever number sits under a masked cell - for a file on disk
+            # the missing code, e.g. -2147483647 - and the integer type then
+            # wraps or truncates it: such cells have no defined contribution
+            res.note('skipped:callable-over-masked-integer')
+            continue
         n = max(1, int(np.prod([vs.shape[ax] for ax, d in mine])))
         if vdt.kind in 'iu':
             info = np.iinfo(vdt)
@@ -356,6 +365,37 @@ def run_file(spec, res, d, h, f, ioapi):
                             np.array_equal(gm, ~keep):
                         truncs.append(name)
                         continue
+                # several functions in one call: the stored type truncates
+                # after EACH of them (same known mechanism), in either order
+                stepwise = False
+                if len(mine) > 1 and got.shape == data.shape:
+                    for order in (sorted(mine, reverse=True), sorted(mine)):
+                        try:
+                            dd_, mm_ = vs.data, vs.mask
+                            for ax_, d_ in order:
+                                fn_ = fnmap[d_]
+                                if fn_ in ops.CALLABLES or fn_ in _EXTRA:
+                                    dd_, mm_ = ref_callable(dd_, mm_, ax_,
+                                                            fn_)
+                                else:
+                                    dd_, mm_ = ref_reduce(dd_, mm_, ax_, fn_)
+                                dd_ = np.trunc(np.asarray(dd_, 'f8')).astype(
+                                    vdt)
+                                if mm_ is not None and not np.any(mm_):
+                                    mm_ = None
+                            k_ = ~(mm_ if mm_ is not None else np.zeros(
+                                dd_.shape, bool))
+                            gm_ = got.mask if got.mask is not None else \
+                                np.zeros(got.shape, bool)
+                            if np.array_equal(gm_, ~k_) and np.array_equal(
+                                    got.data[k_], dd_[k_]):
+                                stepwise = True
+                                break
+                        except Exception:
+                            pass
+                if stepwise:
+                    truncs.append(name)
+                    continue
                 problems.append('%s: fractional reference stored in %s '
                                 'variable and not even its truncation'
                                 % (name, vdt))
